@@ -11,6 +11,7 @@ import Driver.Adpcm
 import Driver.C10
 import Driver.C17
 import Driver.C03
+import Driver.Faults
 open Sf
 
 def lawOf (s : String) : Option G711.Law :=
@@ -65,4 +66,5 @@ def main (args : List String) : IO UInt32 := do
   | "c10fcheck" :: _ => Sf.C10Driver.fcheckCmd
   | "c17grid" :: rest => C17Driver.main rest
   | "c03" :: rest => C03Driver.main rest
+  | "faults" :: rest => FaultsDriver.cmd rest
   | _ => IO.eprintln "usage: sfmodel <g711|...> ..."; return 2
